@@ -36,6 +36,10 @@ enum BvAct {
     SetBits(usize, u8, u64),
     ExtBools(u8),
     ExtPos(u8),
+    /// operations that must leave the sequence unchanged and the value usable: 0 bincode round trip, 1 conversion to
+    /// BitVector and back, 2 shrink_to_fit, 3 collect of its own iterator, 4 clone(), 5..=7 clone_from() into a value
+    /// that held something else (empty / 3 zeros / 2000 ones with spare capacity)
+    Same(u8),
 }
 
 fn bv_start(s: BvStart) -> (BitVectorMut, Vec<bool>) {
@@ -111,6 +115,13 @@ fn bv_actions(n: usize, out: &mut Vec<BvAct>) {
     }
 }
 
+/// copy operations (at most one per history: they open a lineage of their own in the state space)
+fn bv_copy_actions(out: &mut Vec<BvAct>) {
+    for k in [0u8, 1, 5, 6, 7] {
+        out.push(BvAct::Same(k));
+    }
+}
+
 fn apply_ref(bits: &mut Vec<bool>, a: BvAct) {
     match a {
         BvAct::Push(b) => bits.push(b),
@@ -136,6 +147,7 @@ fn apply_ref(bits: &mut Vec<bool>, a: BvAct) {
                 bits[p] = true;
             }
         }
+        BvAct::Same(_) => {}
     }
 }
 
@@ -151,6 +163,26 @@ fn apply_real(b: &mut BitVectorMut, a: BvAct) {
             let n = b.len();
             b.extend(ext_pos(k, n))
         }
+        BvAct::Same(0) => *b = bincode::deserialize(&bincode::serialize(&*b).unwrap()).unwrap(),
+        BvAct::Same(1) => *b = BitVectorMut::from(BitVector::from(std::mem::take(b))),
+        BvAct::Same(2) => b.shrink_to_fit(),
+        BvAct::Same(3) => *b = b.iter().collect(),
+        BvAct::Same(4) => *b = b.clone(),
+        BvAct::Same(k) => {
+            let mut d = match k {
+                5 => BitVectorMut::new(),
+                6 => BitVectorMut::with_zeros(3),
+                _ => {
+                    let mut d = BitVectorMut::with_capacity(5000);
+                    for _ in 0..2000 {
+                        d.push(true);
+                    }
+                    d
+                }
+            };
+            d.clone_from(b);
+            *b = d;
+        }
     }
 }
 
@@ -162,6 +194,9 @@ struct BvSt {
     depth: u8,
     /// everything observable about hidden state: len, ones counter, all words of all lines
     hidden: Vec<u64>,
+    /// which copy operations (BvAct::Same) lie on the path, and where: a copy may differ from the value it copies in
+    /// state no observation shows yet (spare lines, capacity), so it must not be merged with it
+    lineage: u64,
 }
 
 fn hidden_of(b: &BitVectorMut) -> Vec<u64> {
@@ -183,7 +218,7 @@ impl std::fmt::Debug for BvSt {
 }
 impl PartialEq for BvSt {
     fn eq(&self, o: &Self) -> bool {
-        self.bits == o.bits && self.depth == o.depth && self.hidden == o.hidden && self.poison.is_some() == o.poison.is_some()
+        self.bits == o.bits && self.depth == o.depth && self.hidden == o.hidden && self.poison.is_some() == o.poison.is_some() && self.lineage == o.lineage
     }
 }
 impl Eq for BvSt {}
@@ -192,6 +227,7 @@ impl Hash for BvSt {
         self.bits.hash(h);
         self.depth.hash(h);
         self.hidden.hash(h);
+        self.lineage.hash(h);
         self.poison.is_some().hash(h);
     }
 }
@@ -240,11 +276,15 @@ impl Model for BvModel {
             }
         }
         let hidden = hidden_of(&real);
-        vec![BvSt { bits, real, poison, depth: 0, hidden }]
+        let lineage = self.prefix.iter().fold(0u64, |l, a| if let BvAct::Same(k) = a { h64(&(l, 0u8, *k)) } else { l });
+        vec![BvSt { bits, real, poison, depth: 0, hidden, lineage }]
     }
     fn actions(&self, s: &BvSt, out: &mut Vec<BvAct>) {
         if s.poison.is_none() && s.depth < self.max_depth {
             bv_actions(s.bits.len(), out);
+            if s.lineage == 0 {
+                bv_copy_actions(out);
+            }
         }
     }
     fn next_state(&self, s: &BvSt, a: BvAct) -> Option<BvSt> {
@@ -253,7 +293,8 @@ impl Model for BvModel {
         let mut real = s.real.clone();
         let poison = trap(|| apply_real(&mut real, a)).err();
         let hidden = hidden_of(&real);
-        Some(BvSt { bits, real, poison, depth: s.depth + 1, hidden })
+        let lineage = if let BvAct::Same(k) = a { h64(&(s.lineage, s.depth, k)) } else { s.lineage };
+        Some(BvSt { bits, real, poison, depth: s.depth + 1, hidden, lineage })
     }
     fn properties(&self) -> Vec<Property<Self>> {
         vec![Property::always("every observation equals the plain sequence of booleans", |_, s: &BvSt| bv_state_ok(s))]
@@ -317,6 +358,9 @@ enum QvAct {
     Push(u8),
     /// extend with list `1` of values typed as integer type `0` (index into INT_TYPES)
     Extend(u8, u8),
+    /// the builder is replaced by a copy of itself: 0 clone(), 1..=3 clone_from() into a builder that held something else
+    /// (empty / 3 symbols / 700 symbols)
+    Same(u8),
 }
 
 const PUSHES: [u8; 8] = [0, 1, 2, 3, 4, 7, 252, 255];
@@ -368,6 +412,20 @@ fn qv_apply(b: Option<&mut QVectorBuilder>, refv: &mut Vec<u8>, a: QvAct) {
                 b.push(v);
             }
         }
+        QvAct::Same(k) => {
+            if let Some(b) = b {
+                if k == 0 {
+                    *b = b.clone();
+                } else {
+                    let mut d = QVectorBuilder::new();
+                    for i in 0..[0usize, 3, 700][(k - 1) as usize] {
+                        d.push((i % 4) as u8);
+                    }
+                    d.clone_from(b);
+                    *b = d;
+                }
+            }
+        }
         QvAct::Extend(t, l) => {
             let vals = ext_list(l);
             match INT_TYPES[t as usize] {
@@ -399,6 +457,12 @@ fn qv_actions(out: &mut Vec<QvAct>) {
     }
 }
 
+fn qv_copy_actions(out: &mut Vec<QvAct>) {
+    for k in 1..4 {
+        out.push(QvAct::Same(k));
+    }
+}
+
 fn qv_start(len: usize, cap: bool) -> (QVectorBuilder, Vec<u8>) {
     let mut b = if cap { QVectorBuilder::with_capacity(len + 7) } else { QVectorBuilder::new() };
     let v: Vec<u8> = (0..len).map(|i| ((i * 7 + i / 5) % 4) as u8).collect();
@@ -415,6 +479,8 @@ struct QvSt {
     poison: bool,
     depth: u8,
     built: u64,
+    /// see BvSt::lineage
+    lineage: u64,
 }
 impl std::fmt::Debug for QvSt {
     fn fmt(&self, f: &mut std::fmt::Formatter<'_>) -> std::fmt::Result {
@@ -423,7 +489,7 @@ impl std::fmt::Debug for QvSt {
 }
 impl PartialEq for QvSt {
     fn eq(&self, o: &Self) -> bool {
-        self.vals == o.vals && self.depth == o.depth && self.built == o.built && self.poison == o.poison
+        self.vals == o.vals && self.depth == o.depth && self.built == o.built && self.poison == o.poison && self.lineage == o.lineage
     }
 }
 impl Eq for QvSt {}
@@ -432,6 +498,7 @@ impl Hash for QvSt {
         self.vals.hash(h);
         self.depth.hash(h);
         self.built.hash(h);
+        self.lineage.hash(h);
         self.poison.hash(h);
     }
 }
@@ -478,11 +545,14 @@ impl Model for QvModel {
     fn init_states(&self) -> Vec<QvSt> {
         let (real, vals) = qv_start(self.start_len, self.cap);
         let built = built_digest(&real);
-        vec![QvSt { vals, real, poison: false, depth: 0, built }]
+        vec![QvSt { vals, real, poison: false, depth: 0, built, lineage: 0 }]
     }
     fn actions(&self, s: &QvSt, out: &mut Vec<QvAct>) {
         if !s.poison && s.depth < self.max_depth {
             qv_actions(out);
+            if s.lineage == 0 {
+                qv_copy_actions(out);
+            }
         }
     }
     fn next_state(&self, s: &QvSt, a: QvAct) -> Option<QvSt> {
@@ -495,7 +565,8 @@ impl Model for QvModel {
             qv_apply(None, &mut vals, a);
         }
         let built = built_digest(&real);
-        Some(QvSt { vals, real, poison, depth: s.depth + 1, built })
+        let lineage = if let QvAct::Same(k) = a { h64(&(s.lineage, s.depth, k)) } else { s.lineage };
+        Some(QvSt { vals, real, poison, depth: s.depth + 1, built, lineage })
     }
     fn properties(&self) -> Vec<Property<Self>> {
         vec![Property::always("the built quad vector holds v mod 4 of every pushed value", |_, s: &QvSt| {
@@ -1043,6 +1114,7 @@ fn enumerate(args: &Args) -> Vec<HCase> {
             v.push(HCase::BvModel { start: BvStart::Empty, prefix: vec![], depth: 1 });
             let mut first = Vec::new();
             bv_actions(0, &mut first);
+            bv_copy_actions(&mut first);
             for a in first {
                 v.push(HCase::BvModel { start: BvStart::Empty, prefix: vec![a], depth: d_empty - 1 });
             }
